@@ -59,6 +59,25 @@ def reduce_genexp(lib, ex, name, node, st):
 
 
 def builtin(lib, ex, name, args, kw, st, node):
+    if name in ("Item", "Pallet"):
+        s = st.fork()
+        x = s.fresh_obj("item")
+        s.heap_set(x, "flow_item_type", VStr("item" if name == "Item" else "Pallet"))
+        for a in ("timestamp_creation", "timestamp_node_entry", "timestamp_node_exit"):
+            s.heap_set(x, a, NONE)
+        s.ghost.setdefault("created", []).append(x.t)
+        return [(x, s)]
+    if name == "get_edge_selector":
+        # utils.get_edge_selector(name, node, env, "IN"/"OUT") by contract: a generator for the two known names
+        d = args[0]
+        code = d.s if isinstance(d, VDyn) else d.t
+        outs, ok = ex.raise_if(st, z3.Not(z3.Or(code == sc("ROUND_ROBIN"), code == sc("RANDOM"))), "ValueError", node.lineno,
+                               "unknown selection type")
+        if ok is not None:
+            g = ok.fresh_obj("generator")
+            ok.heap_set(g, "selector_kind", VStr(code))
+            outs.append((VDyn(tag=z3.IntVal(V.T_GEN), num=z3.RealVal(0), s=z3.IntVal(0), oid=g.t), ok))
+        return outs
     if name == "range":
         if len(args) == 1:
             n = V.as_num(args[0]).t
@@ -318,7 +337,7 @@ def install(lib):
             items = [
                 Clause("constant-index-used-as-is", lambda c: z3.Implies(is_int(d), V.eq(v, d)), ("C15",)),
                 Clause("result-is-the-value-obtained", lambda c: V.eq(V.dyn_of(c.res), v), ("C15",)),
-                Clause("result-in-range", lambda c: in_range(c), ("C15", "C20")),
+            ] + ([Clause("result-in-range", lambda c: in_range(c), ("C15", "C20"))] if records else []) + [
                 Structural("policy-consulted-exactly-once", lambda c: consults_ok(c, d, also_int=True), ("C15",),
                            caller_effect=lambda c: c.new.ghost.setdefault("consults", []).append(
                                ("contract", d.oid, v, z3.Not(is_int(d))))),
@@ -348,6 +367,7 @@ def install(lib):
         C[cls]["_get_out_edge_index"] = mk_index(cls, "out", True)
         C[cls]["_get_in_edge_index"] = mk_index(cls, "in", True)
     C["Combiner"]["_get_out_edge_index"] = mk_index("Combiner", "out", True)
+    C["Source"]["_get_out_edge_index"] = mk_index("Source", "out", False)
     install_more(lib)
 
 
